@@ -134,6 +134,27 @@ def _real(x):
     return z3.ToReal(x) if z3.is_int(x) else x
 
 
+def relevant(conds, goal_conds):
+    """cone of influence: the hypotheses that share variables (transitively) with
+    the goal.  Dropping hypotheses is sound for proofs (unsat of a subset implies
+    unsat of the whole)."""
+    vs = [set(core.variables([c])) for c in conds]
+    want = set()
+    for g in goal_conds:
+        want |= set(core.variables([g]))
+    keep = [False] * len(conds)
+    changed = True
+    while changed:
+        changed = False
+        for i, c in enumerate(conds):
+            if not keep[i] and (vs[i] & want or not vs[i]):
+                keep[i] = True
+                if not vs[i] <= want:
+                    want |= vs[i]
+                    changed = True
+    return [c for i, c in enumerate(conds) if keep[i]]
+
+
 def check(conds, timeout_ms=3000, want_model=False, external=False):
     """satisfiability of the conjunction of boolean nodes.
     returns (status, model_dict_or_None, info)"""
@@ -141,7 +162,10 @@ def check(conds, timeout_ms=3000, want_model=False, external=False):
     cv = Z3Conv()
     fs = [cv.conv(b) for b in conds]
     s = z3.Solver()
-    s.set('timeout', timeout_ms)
+    # deterministic resource limit (verdicts must not flip with machine load); the
+    # wall-clock timeout is only a safety net
+    s.set('rlimit', int(timeout_ms) * 400)
+    s.set('timeout', int(timeout_ms) * 5)
     for f in cv.side + fs:
         s.add(f)
     r = s.check()
@@ -196,6 +220,7 @@ def _external(args, smt2):
 
 def prove(goal, hyps, timeout_ms=20000, external=True):
     """prove hyps => goal.  returns dict(status in proved/refuted/unknown, model, ...)"""
+    hyps = relevant(list(hyps), [goal])
     st, model, info = check(list(hyps) + [core.bnot(goal)], timeout_ms, want_model=True,
                             external=external)
     return dict(status={'unsat': 'proved', 'sat': 'refuted'}.get(st, 'unknown'),
